@@ -88,10 +88,12 @@ def check_totals(run, doc, opts, res, label):
 def run_totals(run, n_docs, seed):
     rnd = random.Random(seed + 4242)
     jobs = []
-    optsets = [["-greedy"], ["-greedy", "-size"], ["-greedy", "-length", "-push0"], ["-greedy", "-partition"]]
+    optsets = [["-greedy"], ["-greedy", "-size"], ["-greedy", "-length", "-push0"], ["-greedy", "-size", "-push0"], ["-greedy", "-partition"],
+               ["-greedy", "-size", "-partition"]]
     docs = []
     for i in range(n_docs):
-        doc = gen.gen_document(rnd, n_contracts=rnd.randrange(1, 3))
+        doc = gen.gen_document(rnd, n_contracts=rnd.randrange(1, 3),
+                               kinds=["rule", "grammar", "mem", "tradeoff", "tradeoff", "tradeoff", "zero", "wrap", "identity"], blocks_per_stream=5)
         opts = optsets[i % len(optsets)]
         docs.append((doc, opts))
         jobs.append((doc, opts))
